@@ -145,3 +145,53 @@ Proof.
     rewrite (map_ext _ _ E), list_sum_map_add, list_sum_map_add, !list_sum_indicator by assumption.
     rewrite IH; [cbn [length]; lia|]. intros b Hb. apply Hwf. now right.
 Qed.
+
+(* ================================================================ simple graphs (the molecular graphs of the property) *)
+Definition count_joins (g : graph) (x y : nat) : nat := length (filter (fun b => joins b x y) g).
+(* no self loops, at most one bond between two atoms *)
+Definition simple (g : graph) : Prop :=
+  (forall b, In b g -> fst b <> snd b) /\ (forall x y, count_joins g x y <= 1).
+
+Lemma filter_partition_length {A} (p : A -> bool) (l : list A) :
+  length (filter p l) + length (filter (fun x => negb (p x)) l) = length l.
+Proof. induction l as [|a l IH]; [reflexivity|]. cbn [filter]. destruct (p a); cbn [negb length]; lia. Qed.
+
+Lemma adj_count_joins g x y : adj g x y -> 1 <= count_joins g x y.
+Proof.
+  intros Ha. unfold count_joins.
+  assert (H : exists b, In b (filter (fun b => joins b x y) g)).
+  { destruct Ha as [H|H]; [exists (x, y)|exists (y, x)]; apply filter_In; (split; [exact H|]);
+      apply joins_true; cbn [fst snd]; tauto. }
+  destruct H as [b Hb]. destruct (filter _ g); [destruct Hb|cbn [length]; lia].
+Qed.
+
+(* in a simple graph `remove_bond g x y` deletes exactly the one bond between x and y *)
+Theorem remove_bond_simple g x y : simple g -> adj g x y -> S (length (remove_bond g x y)) = length g.
+Proof.
+  intros [_ Hc] Ha. pose proof (filter_partition_length (fun b => joins b x y) g) as Hp.
+  pose proof (adj_count_joins g x y Ha). specialize (Hc x y). unfold count_joins, remove_bond in *. lia.
+Qed.
+
+Lemma simple_tail b g : simple (b :: g) -> simple g.
+Proof.
+  intros [Hl Hc]. split; [intros b' Hb'; apply Hl; now right|].
+  intros x y. specialize (Hc x y). unfold count_joins in *. cbn [filter] in Hc.
+  destruct (joins b x y); cbn [length] in Hc; lia.
+Qed.
+
+(* ... and no atom is listed twice among the neighbours *)
+Theorem connected_atoms_nodup g a : simple g -> NoDup (connected_atoms g a).
+Proof.
+  induction g as [|b g IH]; intros Hs; [constructor|].
+  specialize (IH (simple_tail _ _ Hs)). unfold connected_atoms in *. cbn [filter].
+  destruct (bond_has b a) eqn:Eb; [|exact IH]. cbn [map]. constructor; [|exact IH].
+  intros Hin. fold (connected_atoms g a) in Hin. apply connected_atoms_adj in Hin.
+  apply adj_count_joins in Hin. destruct Hs as [_ Hc]. specialize (Hc a (bond_other b a)).
+  unfold count_joins in *. cbn [filter] in Hc.
+  assert (Hj : joins b a (bond_other b a) = true).
+  { apply joins_true. apply bond_has_true in Eb. unfold bond_other.
+    destruct (fst b =? a) eqn:E1.
+    - apply Nat.eqb_eq in E1. now left.
+    - apply Nat.eqb_neq in E1. destruct Eb as [Eb|Eb]; [contradiction|]. now right. }
+  rewrite Hj in Hc. cbn [length] in Hc. lia.
+Qed.
